@@ -31,8 +31,14 @@ theorem dget_eq_none_iff (d : Dict β) (k : Bytes) : dget d k = none ↔ k ∉ d
     · simp [h, ih, Ne.symm h]
 
 theorem mem_dkeys_iff (d : Dict β) (k : Bytes) : k ∈ dkeys d ↔ (dget d k).isSome := by
-  rw [← Option.not_isNone_iff_isSome (a := dget d k)]
-  simp [Option.isNone_iff_eq_none, dget_eq_none_iff]
+  cases h : dget d k with
+  | none => simpa using (dget_eq_none_iff d k).mp h
+  | some v =>
+    simp only [Option.isSome_some, iff_true]
+    apply Classical.byContradiction
+    intro hn
+    rw [(dget_eq_none_iff d k).mpr hn] at h
+    cases h
 
 theorem dget_some_mem {d : Dict β} {k : Bytes} {v : β} (h : dget d k = some v) : (k, v) ∈ d := by
   induction d with
@@ -127,7 +133,12 @@ theorem dnodup_dset {d : Dict β} (hd : DNodup d) (k : Bytes) (v : β) : DNodup 
   by_cases h : k ∈ dkeys d
   · rw [dkeys_dset_of_mem d k v h]; exact hd
   · rw [dkeys_dset_of_not_mem d k v h]
-    exact List.nodup_append.mpr ⟨hd, by simp, by intro a ha b hb; simp at hb; subst hb; exact fun e => h (e ▸ ha)⟩
+    rw [List.nodup_append]
+    refine ⟨hd, by simp, ?_⟩
+    intro a ha b hb
+    rw [List.mem_singleton] at hb
+    subst hb
+    exact fun e => h (e ▸ ha)
 
 /-! ### `{**a, **b}` -/
 
@@ -144,8 +155,8 @@ theorem mem_dkeys_dunion (a b : Dict β) (k : Bytes) : k ∈ dkeys (dunion a b) 
   induction b generalizing a with
   | nil => simp [dunion_nil]
   | cons e r ih =>
-    rw [dunion_cons, ih, mem_dkeys_dset]
-    simp only [dkeys_cons, List.mem_cons]
+    obtain ⟨k0, v0⟩ := e
+    rw [dunion_cons, ih, mem_dkeys_dset, dkeys_cons, List.mem_cons]
     constructor
     · rintro ((h | h) | h)
       · exact Or.inr (Or.inl h)
@@ -164,7 +175,7 @@ theorem dget_dunion (a : Dict β) {b : Dict β} (hb : DNodup b) (k : Bytes) :
   | cons e r ih =>
     obtain ⟨k0, v0⟩ := e
     simp only [DNodup, dkeys_cons, List.nodup_cons] at hb
-    rw [dunion_cons, ih hb.2, dget_cons]
+    rw [dunion_cons, ih _ hb.2, dget_cons]
     by_cases h : k0 = k
     · subst h
       have : dget r k0 = none := (dget_eq_none_iff r k0).mpr hb.1
@@ -240,7 +251,7 @@ theorem bytesLe_antisymm {a b : Bytes} (h1 : bytesLe a b = true) (h2 : bytesLe b
 theorem sortKeys_perm (l : List Bytes) : (sortKeys l).Perm l := List.mergeSort_perm l _
 
 theorem sortKeys_pairwise (l : List Bytes) : (sortKeys l).Pairwise (fun a b => bytesLe a b = true) :=
-  List.pairwise_mergeSort (fun _ _ _ => bytesLe_trans) bytesLe_total l
+  List.pairwise_mergeSort (le := bytesLe) (fun _ _ _ h1 h2 => bytesLe_trans h1 h2) bytesLe_total l
 
 theorem mem_sortKeys (l : List Bytes) (k : Bytes) : k ∈ sortKeys l ↔ k ∈ l := (sortKeys_perm l).mem_iff
 
@@ -272,6 +283,15 @@ theorem sortedItems_ext {a b : Dict β} (ha : DNodup a) (hb : DNodup b) (h : ∀
   funext k
   rw [h k]
 
+theorem filterMap_eq_self_of {α : Type} {f : α → Option α} {l : List α} (h : ∀ x ∈ l, f x = some x) :
+    l.filterMap f = l := by
+  induction l with
+  | nil => rfl
+  | cons a r ih =>
+    rw [List.filterMap_cons, h a (List.mem_cons_self ..)]
+    simp only
+    rw [ih fun x hx => h x (List.mem_cons_of_mem _ hx)]
+
 theorem dkeys_sortedItems (d : Dict β) : dkeys (sortedItems d) = sortKeys (dkeys d) := by
   unfold sortedItems dkeys
   rw [List.map_filterMap]
@@ -281,8 +301,7 @@ theorem dkeys_sortedItems (d : Dict β) : dkeys (sortedItems d) = sortKeys (dkey
     have hk' : k ∈ dkeys d := (mem_sortKeys _ k).mp hk
     obtain ⟨v, hv⟩ := Option.isSome_iff_exists.mp ((mem_dkeys_iff d k).mp hk')
     simp [hv]
-  rw [List.filterMap_congr this]
-  simp
+  exact filterMap_eq_self_of this
 
 theorem dnodup_sortedItems {d : Dict β} (hd : DNodup d) : DNodup (sortedItems d) := by
   unfold DNodup
